@@ -65,6 +65,19 @@ def default_inst(classes, name):
     return {"t": "inst", "cls": name, "v": [[f["name"], f["default"]] for f in c["fields"]]}
 
 
+def alt_cls(a):
+    return a["inst"]["cls"] if "inst" in a else (a.get("type") or a.get("partial") or a.get("func"))
+
+
+def alt_member(classes, a):
+    """the INSTANCE a subgroup choice builds: type() / partial() / factory() / the frozen instance itself"""
+    if "inst" in a:
+        return a["inst"]
+    d = default_inst(classes, alt_cls(a))
+    over = dict((n, v) for n, v in a.get("kw", []))
+    return {"t": "inst", "cls": d["cls"], "v": [[n, over.get(n, v)] for n, v in d["v"]]}
+
+
 # ------------------------------------------------------------------------------------------------
 # generators
 
@@ -116,12 +129,17 @@ def gen_forest(rng, depth, with_sg=False, reserved=False):
                     used_types = set()
                     for j, key in enumerate(keys):
                         cn = first if j == 0 else rng.choice(lower)
-                        if j > 0 and cls_by_name(classes)[cn]["frozen"] and rng.random() < 0.5:
+                        r2 = rng.random()
+                        if j > 0 and cls_by_name(classes)[cn]["frozen"] and r2 < 0.35:
                             alts[key] = {"inst": gen_inst(rng, classes, cn)}
+                        elif j > 0 and r2 < 0.8:
+                            leafs = [g for g in cls_by_name(classes)[cn]["fields"] if g["init"] and not g["cls"]]
+                            kw = [[g["name"], gen_leaf_value(rng, g["kind"])] for g in leafs if rng.random() < 0.6]
+                            alts[key] = {("partial" if r2 < 0.6 else "func"): cn, "kw": kw}
                         elif cn not in used_types:
                             alts[key] = {"type": cn}
                             used_types.add(cn)
-                    fields.append({"name": fname, "kind": "sg", "cls": sorted({a.get("type") or a["inst"]["cls"] for a in alts.values()}),
+                    fields.append({"name": fname, "kind": "sg", "cls": sorted({alt_cls(a) for a in alts.values()}),
                                    "alts": alts, "init": True, "factory": True,
                                    "default": default_inst(classes, alts[keys[0]]["type"])})
                 elif r < 0.6:
@@ -242,6 +260,17 @@ def gen_edit(rng, classes, obj, kind):
     raise ValueError(kind)
 
 
+def inst_paths(classes, v, pre=()):
+    """paths (through init fields) to every dataclass-valued init field of the instance tree v"""
+    out = []
+    if v.get("t") == "inst":
+        for n, x in v["v"]:
+            if x.get("t") == "inst" and field_of(classes, v["cls"], n)["init"]:
+                out.append(list(pre) + [n])
+                out += inst_paths(classes, x, tuple(pre) + (n,))
+    return out
+
+
 def is_prefix(p, q):
     return len(p) <= len(q) and q[: len(p)] == p
 
@@ -269,19 +298,20 @@ def render(rng, edits, mode="mixed"):
     return D(items)
 
 
-def gen_replace_case(rng, tier, bad=None, reserved=False):
+def gen_replace_case(rng, tier, bad=None, reserved=False, touch=False):
     for _ in range(30):
-        c = _gen_replace_case(rng, tier, bad, reserved)
-        if bad is None or any(e["kind"] == bad for e in c["case"]["edits"]):
+        c = _gen_replace_case(rng, tier, bad, reserved, touch)
+        want = bad or ("touch" if touch else None)
+        if want is None or any(e["kind"] == want for e in c["case"]["edits"]):
             break
     return c
 
 
-def _gen_replace_case(rng, tier, bad=None, reserved=False):
+def _gen_replace_case(rng, tier, bad=None, reserved=False, touch=False):
     depth = rng.choice([1, 2, 2, 3, 3, 4])
     classes, root = gen_forest(rng, depth, reserved=reserved)
     obj = gen_inst(rng, classes, root, p_default=0.2)
-    n = rng.choice([0, 1, 1, 2, 2, 3, 4])
+    n = rng.choice([0, 0, 1, 2]) if touch else rng.choice([0, 1, 1, 2, 2, 3, 4])
     edits = []
     for _ in range(n):
         e = gen_edit(rng, classes, obj, "ok")
@@ -290,6 +320,12 @@ def _gen_replace_case(rng, tier, bad=None, reserved=False):
         if any(is_prefix(e["path"], x["path"]) or is_prefix(x["path"], e["path"]) for x in edits):
             continue
         edits.append(e)
+    if touch:
+        ips = inst_paths(classes, obj)
+        rng.shuffle(ips)
+        for pth in ips[: rng.choice([1, 1, 2, 3])]:
+            if not any(is_prefix(pth, x["path"]) or is_prefix(x["path"], pth) for x in edits):
+                edits.insert(rng.randrange(len(edits) + 1), {"path": pth, "v": D([]), "kind": "touch"})
     if bad:
         e = gen_edit(rng, classes, obj, bad)
         if e is not None and not any(is_prefix(e["path"], x["path"]) or is_prefix(x["path"], e["path"]) for x in edits):
@@ -386,7 +422,7 @@ def gen_sel_value(rng, classes, f, valid):
             if rng.random() < 0.75:
                 k = rng.choice(keys)
                 a = f["alts"][k]
-                return S(k), (default_inst(classes, a["type"]) if "type" in a else a["inst"])
+                return S(k), alt_member(classes, a)
             cn = rng.choice(f["cls"])
             if rng.random() < 0.5:
                 return {"t": "type", "cls": cn}, default_inst(classes, cn)
@@ -473,6 +509,8 @@ def gen(rng, tier):
         yield {"op": "replace.unflatten_sel", "case": {"sel": D(gen_unflatten_sel_case(rng))}}
     for _ in range(1500 if q else 12000):
         yield gen_replace_case(rng, tier)
+    for _ in range(250 if q else 2500):
+        yield gen_replace_case(rng, tier, touch=True)
     for bad in ("noninit", "unknown", "through"):
         for _ in range(200 if q else 1500):
             yield gen_replace_case(rng, tier, bad=bad)
@@ -529,7 +567,7 @@ def build_classes(classes):
             kw = {} if f["init"] else {"init": False}
             dv = f["default"]
             if f["kind"] == "sg":
-                alts = {k: (real[a["type"]] if "type" in a else build_value(a["inst"], real)) for k, a in f["alts"].items()}
+                alts = {k: build_alt(a, real) for k, a in f["alts"].items()}
                 first = next(iter(f["alts"].values()))
                 fld = subgroups(alts, default_factory=real[first["type"]])
             elif f.get("factory"):
@@ -539,6 +577,27 @@ def build_classes(classes):
             specs.append((f["name"], ann(f), fld))
         real[c["name"]] = dataclasses.make_dataclass(c["name"], specs, frozen=c["frozen"])
     return real
+
+
+def build_alt(a, real):
+    """a subgroup choice as the user would write it (helpers/subgroups.py allows all four kinds)"""
+    import functools
+
+    if "type" in a:
+        return real[a["type"]]
+    if "inst" in a:
+        return build_value(a["inst"], real)
+    cls = real[alt_cls(a)]
+    kw = {n: build_value(v, real) for n, v in a["kw"]}
+    if "partial" in a:
+        return functools.partial(cls, **kw)
+
+    def factory():
+        return cls(**kw)
+
+    factory.__name__ = factory.__qualname__ = "make_" + cls.__name__
+    factory.__annotations__["return"] = cls
+    return factory
 
 
 def build_value(v, real):
@@ -619,17 +678,25 @@ def impl(case):
         def call(cd, kw):
             cdv = None if cd is None else build_value(cd, real)
             kwv = build_value(kw, real)
+            arg_before = None if cdv is None else sp.cv(cdv)
             r = outcome(lambda: replace(obj, cdv, **kwv) if cd is not None else replace(obj, **kwv))
+            extra = {}
+            if cdv is not None:
+                # the caller's dict after the call, and the SAME dict object applied a second time
+                extra["arg_unchanged"] = sp.cv(cdv) == arg_before
+                r2 = outcome(lambda: replace(obj, cdv, **kwv))
+                extra["reuse"] = ({"o": "ok", "v": sp.cv(r2["value"])} if r2["o"] == "ok"
+                                  else {"o": "raise", "exc": r2["exc"]})
             if r["o"] == "ok":
                 v = r["value"]
-                return {"o": "ok", "v": sp.cv(v), "same_type": type(v) is type(obj), "is_new": v is not obj,
-                        "eq_obj": bool(v == obj)}, v
-            return {"o": "raise", "exc": r["exc"]}, None
+                return dict({"o": "ok", "v": sp.cv(v), "same_type": type(v) is type(obj), "is_new": v is not obj,
+                             "eq_obj": bool(v == obj)}, **extra), v
+            return dict({"o": "raise", "exc": r["exc"]}, **extra), None
 
         res, val = call(c["cd"], c["kw"])
         obs = {"out": res, "before": before, "after": sp.cv(obj), "unchanged": bool(obj == keep)}
         edits = c.get("edits") or []
-        if c["stream"] == "edits" and all(e["kind"] == "ok" for e in edits):
+        if c["stream"] == "edits" and all(e["kind"] in ("ok", "touch") for e in edits):
             pe = [(e["path"], e["v"]) for e in edits]
             alts = {}
             import random
@@ -647,7 +714,7 @@ def impl(case):
                 if val is not None and aval is not None:
                     alts[name]["py_eq"] = bool(aval == val)
             obs["alts"] = alts
-            rr = outcome(lambda: ref_apply(obj, [(p, build_value(v, real)) for p, v in pe]))
+            rr = outcome(lambda: ref_apply(obj, [(e["path"], build_value(e["v"], real)) for e in edits if e["kind"] == "ok"]))
             obs["ref"] = ({"o": "ok", "v": sp.cv(rr["value"]), "py_eq": bool(val is not None and rr["value"] == val)}
                           if rr["o"] == "ok" else {"o": "raise", "exc": rr["exc"]})
             obs["after"] = sp.cv(obj)
@@ -696,8 +763,7 @@ def sg_table(classes):
             k = f["kind"]
             sg = None
             if k == "sg":
-                sg = D([(key, annotate(default_inst(classes, a["type"]) if "type" in a else a["inst"], classes))
-                        for key, a in f["alts"].items()])
+                sg = D([(key, annotate(alt_member(classes, a), classes)) for key, a in f["alts"].items()])
             tbl.append({"cls": c["name"], "f": f["name"], "hasDc": k in ("dc", "opt", "union", "sg"),
                         "isOpt": k in ("opt", "optint"), "sg": sg,
                         "fac": annotate(f["default"], classes) if f.get("factory") else None})
@@ -803,6 +869,13 @@ def oracle(case, obs):
             return fails
         if c["stream"] != "edits":
             return fails
+        # the change set is an input too: replace must not consume / alter the caller's dict, and the same dict
+        # applied again must do the same thing (one form per subtree: the malformed streams are not judged here)
+        if out.get("arg_unchanged") is False:
+            fails.append({"clause": "changes-arg-unchanged", "detail": "the positional change-set dict was modified by replace()"})
+        ru = out.get("reuse")
+        if ru is not None and (ru["o"] != out["o"] or (ru["o"] == "ok" and ru["v"] != out["v"])):
+            fails.append({"clause": "reuse", "detail": f"re-using the same change-set dict gives {canon(ru)[:300]} instead of the first result"})
         edits = c["edits"]
         status = [edit_status(c["obj"], classes, e) for e in edits]
         if any(s != "ok" for s in status):
@@ -817,13 +890,18 @@ def oracle(case, obs):
             return fails
         exp = c["obj"]
         for e in edits:
-            exp = spec_apply(exp, e["path"], e["v"], classes)
+            if e["kind"] != "touch":       # an empty nested change set changes nothing below its path
+                exp = spec_apply(exp, e["path"], e["v"], classes)
         if out["v"] != exp:
-            bad_addr = [e["path"] for e in edits if tree_get(out["v"], e["path"]) != e["v"]]
+            bad_addr = [e["path"] for e in edits if tree_get(out["v"], e["path"]) != tree_get(exp, e["path"])]
             fails.append({"clause": "addressed" if bad_addr else "frame",
                           "detail": f"addressed leaves wrong: {bad_addr}" if bad_addr else "a leaf that no change addresses differs",
                           "got": out["v"], "exp": exp})
         for name, a in (obs.get("alts") or {}).items():
+            aru = a.get("reuse")
+            if a.get("arg_unchanged") is False or (aru is not None and (aru["o"] != a["o"] or (aru["o"] == "ok" and aru["v"] != a["v"]))):
+                fails.append({"clause": "reuse", "form": name,
+                              "detail": f"{name} form: the change-set dict is consumed / gives {canon(a.get('reuse'))[:200]} when applied again"})
             if a["o"] != "ok" or a["v"] != out["v"] or not a.get("py_eq", False):
                 fails.append({"clause": "forms", "form": name,
                               "detail": f"{name} form of the same edits gives {canon(a)[:300]} instead of the same result"})
@@ -971,6 +1049,9 @@ def tags(case, obs):
             t.append("edit:" + e["kind"])
         o = obs["out"]
         t.append("out:" + (o["o"] if o["o"] == "ok" else o["exc"]))
+        for e in c.get("edits") or []:
+            if e["kind"] == "touch":
+                t.append(f"touch-depth:{len(e['path'])}")
         if any(cl["frozen"] for cl in c["classes"]):
             t.append("has:frozen")
         ch = c["cd"] or c["kw"]
